@@ -12,6 +12,8 @@ from ..docsuite import FLOW_FORMATS, MULTI, build_jobs, heading_jobs, run_suite,
 
 FINDING_DEV = {
     "KF-C03-01": "Rtf!EmptyPageDropped",
+    "KF-C03-11": "Ppt!EmptySlideDropped",
+    "KF-C03-12": "Ppt!RawFallback",
     "KF-C03-03": "Docx!UnitsRepeatTextbox",
     "KF-C03-04": "Odt!UnitsIncludeHidden",
     "KF-C03-05": "Odt!UnitsRepeatNested",
